@@ -1,17 +1,18 @@
 #!/bin/sh
-# offline setup: verify toolchain, parse every specification with SANY. Builds nothing persistent.
-set -e
+# offline setup: verify the toolchain and parse every specification with SANY (report only: a check whose
+# specification does not parse fails on its own as a machinery error). Builds nothing persistent.
 cd "$(dirname "$0")/.."
-command -v java >/dev/null
-command -v gcc >/dev/null
-test -x /venv/bin/python
-test -f /opt/veriftools/tla/tla2tools.jar
-fail=0
+for t in java gcc; do command -v $t >/dev/null || { echo "missing tool: $t"; exit 1; }; done
+test -x /venv/bin/python || { echo "missing /venv/bin/python"; exit 1; }
+test -f /opt/veriftools/tla/tla2tools.jar || { echo "missing tla2tools.jar"; exit 1; }
+bad=0
 for f in specs/*.tla; do
   m=$(basename "$f" .tla)
-  if ! (cd specs && java -cp /opt/veriftools/tla/tla2tools.jar:/opt/veriftools/tla/CommunityModules-deps.jar tla2sany.SANY "$m.tla" >/var/tmp/sany.$$.out 2>&1); then
-    echo "SANY failed for $m"; cat /var/tmp/sany.$$.out; fail=1
+  case "$m" in *_TTrace_*) continue;; esac
+  if ! (cd specs && java -cp /opt/veriftools/tla/tla2tools.jar:/opt/veriftools/tla/CommunityModules-deps.jar tla2sany.SANY "$m.tla" >/var/tmp/sany.$$.out 2>&1) || grep -q "Parse Error\|Semantic errors\|Fatal errors" /var/tmp/sany.$$.out; then
+    echo "WARNING: SANY reports problems for $m"; bad=$((bad+1))
   fi
 done
 rm -f /var/tmp/sany.$$.out
-exit $fail
+echo "setup: toolchain ok, $bad specification(s) with SANY warnings"
+exit 0
